@@ -145,6 +145,30 @@ fn main() {
                     })
                     .collect();
                 lines.push(format!("decl {}: {}", name, decl.join(" ")));
+                // methods marked to use integer results: a trait-level or method-level `int_result`
+                // (optionally naming a result alias) unless `no_int_result`, when the return type
+                // is spelled with the marked name
+                fn marker(attrs: &[syn::Attribute]) -> Option<String> {
+                    attrs.iter().find(|a| a.path.is_ident("int_result")).map(|a| {
+                        a.parse_args::<syn::Ident>().map(|i| i.to_string()).unwrap_or_else(|_| "Result".to_string())
+                    })
+                }
+                let trait_level = marker(&tr.attrs);
+                let coded: Vec<String> = tr
+                    .items
+                    .iter()
+                    .filter_map(|i| {
+                        let syn::TraitItem::Method(m) = i else { return None };
+                        if m.attrs.iter().any(|a| a.path.is_ident("no_int_result") || a.path.is_ident("skip_func")) {
+                            return None;
+                        }
+                        let name = marker(&m.attrs).or_else(|| trait_level.clone())?;
+                        let syn::ReturnType::Type(_, ty) = &m.sig.output else { return None };
+                        let syn::Type::Path(p) = &**ty else { return None };
+                        (p.path.segments.last()?.ident == name).then(|| m.sig.ident.to_string())
+                    })
+                    .collect();
+                lines.push(format!("intres {}: {}", name, coded.join(" ")));
                 let text = tr.to_token_stream().to_string();
                 let v = on_fresh_thread(move || {
                     let tr: syn::ItemTrait = syn::parse_str(&text).expect("trait re-parse");
